@@ -43,43 +43,59 @@ def _work(i, conn, timeout, seed):
             conn.send((v, time.time() - t0, "z3", ""))
             return
         # portfolio over sound encodings of the same obligation (first unsat wins)
-        variants = [("z3", o)] + [(f"z3/{nm}", alt) for nm, alt in getattr(o, "alternatives", [])]
+        alts = list(getattr(o, "alternatives", []))
+        variants = [("z3", o)] + [(f"z3/{nm}", alt) for nm, alt in alts]
         if by.get("nlabs") == "first":
             variants.insert(0, ("z3/nlabs", None))
         elif by.get("nlabs", True):
             variants.insert(1, ("z3/nlabs", None))
+        if by.get("nlabs", True):
+            # non-linear abstraction of the alternative encodings as well (no recursive unfolding + no NRA: the stable combination
+            # for obligations that only need congruence; seed-independent where the single abstractions are not)
+            extra = [(f"z3/nlabs+{nm}", ("abs", alt)) for nm, alt in alts]
+            pos = 1 if by.get("nlabs") == "first" else 2
+            variants[pos:pos] = extra
         pref = by.get("prefer")
         if pref:
             variants.sort(key=lambda x: 0 if x[0].endswith(pref) else 1)
         notes = []
-        for nm, v in variants:
-            if v is None:
-                try:
-                    v = _Abs(o)
-                except Exception as exc:
-                    notes.append(f"{nm}: abstraction failed ({exc})")
+        built = {}
+        # two passes: a short budget for every encoding first (most obligations need milliseconds in the right encoding), then the full one
+        for budget in ([min(1500, to), to] if to > 1500 else [to]):
+            for nm, v in variants:
+                if nm not in built:
+                    try:
+                        built[nm] = _Abs(o) if v is None else (_Abs(v[1]) if isinstance(v, tuple) else v)
+                    except Exception as exc:
+                        notes.append(f"{nm}: abstraction failed ({exc})")
+                        built[nm] = None
+                v = built[nm]
+                if v is None:
                     continue
-            s = _solver_for(v, to, seed)
-            s.add(z3.Not(v.goal))
-            r = s.check()
-            if r == z3.unsat:
-                conn.send(("discharged", time.time() - t0, nm, "; ".join(notes)))
-                return
-            if r == z3.sat and (nm.endswith("noax") or nm.endswith("nlabs")):
-                notes.append(f"{nm}: sat without definitions (not a refutation)")
-                continue
-            if r == z3.sat:
-                txt = _model_text(s.model())
-                try:
-                    mi = _model_input(s.model(), getattr(o, "inputs", None)) if nm == "z3" else None
-                except Exception as exc:      # pragma: no cover
-                    mi = None
-                if mi is not None:
-                    import json as _json
-                    txt = "MODEL-INPUT " + _json.dumps(mi) + "\n" + txt
-                conn.send(("refuted", time.time() - t0, nm, txt))
-                return
-            notes.append(f"{nm}: unknown ({s.reason_unknown()})")
+                s = _solver_for(v, budget, seed)
+                s.add(z3.Not(v.goal))
+                r = s.check()
+                if r == z3.unsat:
+                    conn.send(("discharged", time.time() - t0, nm, "; ".join(notes)))
+                    return
+                if r == z3.sat and ("noax" in nm or "nlabs" in nm):
+                    if budget == to:
+                        notes.append(f"{nm}: sat without definitions (not a refutation)")
+                    built[nm] = None
+                    continue
+                if r == z3.sat:
+                    txt = _model_text(s.model())
+                    try:
+                        mi = _model_input(s.model(), getattr(o, "inputs", None)) if nm == "z3" else None
+                    except Exception as exc:      # pragma: no cover
+                        mi = None
+                    if mi is not None:
+                        import json as _json
+                        txt = "MODEL-INPUT " + _json.dumps(mi) + "\n" + txt
+                    conn.send(("refuted", time.time() - t0, nm, txt))
+                    return
+                if budget == to:
+                    notes.append(f"{nm}: unknown ({s.reason_unknown()})")
         conn.send(("unknown", time.time() - t0, "z3", "; ".join(notes)))
     except Exception as exc:  # pragma: no cover
         conn.send(("error", time.time() - t0, "z3", f"{type(exc).__name__}: {exc}"))
@@ -269,7 +285,7 @@ def discharge(obls, timeout=None, retry=True, use_cvc5=True, progress=None):
             elif not p.is_alive():
                 p.join()
                 done.append((i, ("error", time.time() - t0, "z3", "worker died")))
-            elif time.time() - t0 > to / 1000.0 * 1.5 * (1 + len(getattr(obls[i], 'alternatives', []))) + 20:
+            elif time.time() - t0 > (to / 1000.0 * 1.3 + 1.5) * (2 + 2 * len(getattr(obls[i], 'alternatives', []))) + 20:
                 p.kill()
                 p.join()
                 done.append((i, ("unknown", time.time() - t0, "z3", "hard timeout")))
